@@ -365,8 +365,24 @@ func runChild(line string) {
 	fmt.Println("R " + hx.Safe(func() string { return execute(o) }))
 }
 
+// hangSeen is set once a child has timed out twice in a row: later lines then get a single short attempt.
+var hangSeen bool
+
 func viaChild(line string) string {
-	ctx, cancel := context.WithTimeout(context.Background(), 6*time.Second)
+	out := childOnce(line, 5*time.Second)
+	if out != "child-timeout" || hangSeen {
+		return out
+	}
+	// a loaded machine can starve a child for seconds: try once more with a generous limit before calling it a hang
+	out = childOnce(line, 40*time.Second)
+	if out == "child-timeout" {
+		hangSeen = true
+	}
+	return out
+}
+
+func childOnce(line string, limit time.Duration) string {
+	ctx, cancel := context.WithTimeout(context.Background(), limit)
 	defer cancel()
 	cmd := exec.CommandContext(ctx, os.Args[0], "child", line)
 	cmd.Dir = workDir
@@ -374,6 +390,9 @@ func viaChild(line string) string {
 	cmd.Stdout = &so
 	cmd.Stderr = &se
 	err := cmd.Run()
+	if ctx.Err() != nil {
+		return "child-timeout"
+	}
 	status := 0
 	if err != nil {
 		var ee *exec.ExitError
@@ -381,9 +400,6 @@ func viaChild(line string) string {
 			status = ee.ExitCode()
 		} else {
 			return "child-error"
-		}
-		if ctx.Err() != nil {
-			return "child-timeout"
 		}
 	}
 	result := ""
